@@ -92,6 +92,7 @@ def case_strategy(draw, max_steps):
 
 
 class Range(Sub):
+    ambient = True
     name = "range"
     n = {"quick": 12000, "thorough": 80000}
     shards = {"quick": 6, "thorough": 16}
